@@ -167,8 +167,9 @@ pub async fn run_case(c: Case) -> Result<CaseInfo, Failure> {
                     }
                 }
                 let pkt = match kind {
-                    KindM::Pub1 => P5::Publish(Box::new(s5::Publish5 { qos: 1, pid: Some(id), topic: "t/a".into(), ..Default::default() })),
-                    KindM::Pub2 => P5::Publish(Box::new(s5::Publish5 { qos: 2, pid: Some(id), topic: "t/a".into(), ..Default::default() })),
+                    // a reuse attempt at an even step carries the DUP flag, as a retransmission would
+                    KindM::Pub1 => P5::Publish(Box::new(s5::Publish5 { qos: 1, dup: in_use && step % 2 == 0, pid: Some(id), topic: "t/a".into(), ..Default::default() })),
+                    KindM::Pub2 => P5::Publish(Box::new(s5::Publish5 { qos: 2, dup: in_use && step % 2 == 0, pid: Some(id), topic: "t/a".into(), ..Default::default() })),
                     KindM::Sub => P5::Subscribe(s5::Sub5 { pid: id, filters: vec![("a/b".into(), s5::SubOpts::default()), ("c".into(), s5::SubOpts::default())], ..Default::default() }),
                     KindM::Unsub => P5::Unsubscribe(s5::Unsub5 { pid: id, filters: vec!["a/b".into()], ..Default::default() }),
                 };
@@ -377,6 +378,9 @@ pub struct RelWindow {
     pub rec_reason: u8,
     /// the reuse attempt comes while the PUBREL handler runs (true) or before the PUBREL (false)
     pub during_rel: bool,
+    /// a re-using PUBLISH carries the DUP flag (as a retransmission would)
+    #[serde(default)]
+    pub dup: bool,
 }
 
 pub async fn run_rel_window(x: RelWindow) -> Result<CaseInfo, Failure> {
@@ -413,8 +417,8 @@ pub async fn run_rel_window(x: RelWindow) -> Result<CaseInfo, Failure> {
     let enters_before = app.events().iter().filter(|e| matches!(e, Ev::PubEnter { .. } | Ev::CtlEnter { kind: CtlKind::Subscribe, .. })).count();
     let wire_before = eut.packets().0.len();
     let reuse = match x.reuse {
-        1 => P5::Publish(Box::new(s5::Publish5 { qos: 1, pid: Some(1), topic: "t/b".into(), ..Default::default() })),
-        2 => P5::Publish(Box::new(s5::Publish5 { qos: 2, pid: Some(1), topic: "t/b".into(), ..Default::default() })),
+        1 => P5::Publish(Box::new(s5::Publish5 { qos: 1, dup: x.dup, pid: Some(1), topic: "t/b".into(), ..Default::default() })),
+        2 => P5::Publish(Box::new(s5::Publish5 { qos: 2, dup: x.dup, pid: Some(1), topic: "t/b".into(), ..Default::default() })),
         _ => P5::Subscribe(s5::Sub5 { pid: 1, filters: vec![("a/b".into(), s5::SubOpts::default())], ..Default::default() }),
     };
     eut.peer_send(&reuse, &[]);
@@ -490,7 +494,10 @@ pub fn rel_window_cases() -> Vec<RelWindow> {
         for reuse in 1..4u8 {
             for during_rel in [false, true] {
                 for rec_reason in if role.is_v5() { vec![0u8, 0x10] } else { vec![0u8] } {
-                    out.push(RelWindow { role, reuse, rec_reason, during_rel });
+                    out.push(RelWindow { role, reuse, rec_reason, during_rel, dup: false });
+                    if reuse != 3 {
+                        out.push(RelWindow { role, reuse, rec_reason, during_rel, dup: true });
+                    }
                 }
             }
         }
